@@ -46,9 +46,12 @@ package supervisor
 //@   requires p.pid > 0
 //@   ensures [the-signal-is-addressed-to-the-group-in-every-case] delta(SignalSent) == 1 ==> lastarg(SignalSent, 0) < 0
 //@   ensures [success-only-after-termination] r0 == nil ==> delta(TerminationSeen) == 1
-//@   ensures [already-terminated-needs-no-signal] delta(TerminationSeen) == 1 && delta(DeadlineAlreadyPast) + delta(DeadlineNotPast) == 0 ==> r0 == nil && delta(SignalSent) == 0
+//@   ensures [already-terminated-is-success] delta(TerminationSeen) == 1 && delta(DeadlineAlreadyPast) + delta(DeadlineNotPast) == 0 ==> r0 == nil
+// C19: "takes the whole process group with it, succeeds for a process that already exited": both at once. The leader's exit says
+// nothing about the members it forked (a wrapper bootstrap's child, which would go on polling the next generation's Runtime API)
+//@   ensures [C19: a-terminated-leaders-group-is-still-killed] delta(TerminationSeen) == 1 && delta(DeadlineAlreadyPast) + delta(DeadlineNotPast) == 0 ==> delta(SignalSent) == 1 && delta(KillSignalSent) == 1 && lastarg(SignalSent, 0) == 0 - p.pid
 //@   ensures [past-deadline-is-an-error-without-signal] delta(DeadlineAlreadyPast) == 1 ==> r0 != nil && delta(SignalSent) == 0
-//@   ensures [whole-group-sigkill] delta(SignalSent) <= 1 && delta(KillSignalSent) == delta(SignalSent) && (delta(SignalSent) == 1 ==> delta(GroupLookup) == 1 && (delta(GroupFound) == 1 && lastret(GroupLookup) >= 0 ==> lastarg(SignalSent, 0) == 0 - lastret(GroupLookup)) && (delta(GroupFound) == 0 ==> lastarg(SignalSent, 0) == 0 - p.pid))
+//@   ensures [whole-group-sigkill] delta(SignalSent) <= 1 && delta(KillSignalSent) == delta(SignalSent) && (delta(SignalSent) == 1 && delta(DeadlineNotPast) == 1 ==> delta(GroupLookup) == 1 && (delta(GroupFound) == 1 && lastret(GroupLookup) >= 0 ==> lastarg(SignalSent, 0) == 0 - lastret(GroupLookup)) && (delta(GroupFound) == 0 ==> lastarg(SignalSent, 0) == 0 - p.pid))
 //@   ensures [outliving-the-deadline-is-an-error] delta(KillDeadlineHit) == 1 ==> r0 != nil
 
 //@ func (*LocalSupervisor).Kill
